@@ -72,7 +72,7 @@ PROPS = {
             'inner_extend_token: an identifier-shaped lexeme gets the keyword / type kind of exactly that spelling, `_` is UNDERSCORE, every other spelling is IDENT',
         ],
         not_decided=[
-            'maximal-munch extents of identifiers, strings and comments',
+            'maximal-munch extents of identifiers and line comments (strings and block comments: exact, see C11)',
             'lifting per-token facts to arbitrary lexeme sequences',
         ],
         explanation='Verus; per-token classification contracts.',
@@ -82,12 +82,12 @@ PROPS = {
         decided=[
             'every malformedness flag of the lexer (unterminated string/bitstring/block comment, empty int, empty exponent, bad version, invalid identifier) yields a non-empty message',
             'Converter::push records it under the index of that very token; nothing is recorded otherwise',
+            'strings, bit strings and block comments: `terminated` is set exactly when the closing quote (not escaped) / the `*/` closing the outermost level of the nested comment exists (spec functions str_end / bc_end), the token then ends right after it, and an unterminated one runs to the end of the input',
             'numeric literals: empty_int / empty_exponent are set exactly when the OpenQASM 3 numeric syntax (num_spec) says so: a base prefix without digits, an exponent marker [sign] without digits',
             'analyze_source (unit SEMA): whenever the source or any included file has a syntax diagnostic (SourceTrait::have_syntax_errors, taken as specified) the result carries a fresh context: empty program, no semantic diagnostics, none for included files; otherwise the analysis runs and the flag is false',
             'parse_text_check_lex (unit SYNX): the tree is withheld exactly when the lexed text has a lexical diagnostic, and then exactly the lexical diagnostics are returned (one syntax error per diagnostic); otherwise the tree of the same text is returned',
         ],
         not_decided=[
-            'that the string / comment scanners set `terminated` exactly when the closing delimiter was consumed',
             'recursive have_syntax_errors over included files',
             'SourceTrait::have_syntax_errors itself (recursion over included files, closures; oq3_source_file is not verified): analyze_source is proved against its specification',
         ],
